@@ -27,6 +27,9 @@ type Lambda struct {
 
 // Call the the function with the arguments provided.
 func (lam *Lambda) Call(s *Scope, args List, depth int) (result Object) {
+	if req := lam.requiredCount(); len(args) < req {
+		ErrorPanic(s, depth, "Too few arguments to %s. At least %d expected but got %d.", lam, req, len(args))
+	}
 	ss := s.NewScope()
 	if lam.Closure != nil {
 		ss.parents = append(ss.parents, lam.Closure)
@@ -185,6 +188,18 @@ Aux:
 		}
 	}
 	return lam.BoundCall(ss, depth)
+}
+
+// requiredCount returns the number of required parameters, those before the
+// first lambda list keyword.
+func (lam *Lambda) requiredCount() (cnt int) {
+	for _, ad := range lam.Doc.Args {
+		if 0 < len(ad.Name) && ad.Name[0] == '&' {
+			break
+		}
+		cnt++
+	}
+	return
 }
 
 // BoundCall the the function with the bindings provided.
